@@ -29,6 +29,8 @@ Definition touches (s : st) (e : event) (r : Z) : bool :=
   | Request _ r' _ _ | RawSend _ r' _ _ _ | RecvEmpty r' _ _ | RecvResp r' _ _ _ | TransportError r' => r' =? r
   | Fire => match min_timer (active_exchanges s) with Some x => m_remote (x_msg x) =? r | None => false end
   | Advance _ | Cancel _ => false
+  | Serve _ r' _ _ => r' =? r
+  | Respond _ k _ _ => match find (fun v => v_k v =? k) (incoming_requests s) with Some v => v_remote v =? r | None => false end
   end.
 (* outputs that concern remote r: datagrams to it, and the ghost records of its messages *)
 Definition about (r : Z) (o : output) : bool :=
@@ -166,26 +168,53 @@ Proof. induction l; [reflexivity|assumption]. Qed.
 Lemma reqs_after_filter r s : filter (fun o => remote_of o =? r) (filter (fun o => negb (remote_of o =? r)) (outgoing_requests s)) = [].
 Proof. induction (outgoing_requests s) as [|a l IH]; [reflexivity|]. cbn. destruct (remote_of a =? r) eqn:E; cbn; [exact IH|rewrite E; exact IH]. Qed.
 
+(* the responders serving requests from r *)
+Definition served_from (r : Z) (s : st) : list served := filter (fun v => v_remote v =? r) (incoming_requests s).
+
 Definition failed_outcome (r : Z) (q : list msg) (s s' : st) (o : list output) : Prop :=
   left r o = q /\ subm r o = [] /\ (forall m, In m q -> In (Dropped m) o) /\ (forall m b, ~ In (Tx m b) o) /\
   (forall en, In en (reqs r s) -> exists err, In (Fail (q_of en) err) o) /\
-  aget r (backlogs s') = None /\ exs r s' = [] /\ reqs r s' = [].
+  aget r (backlogs s') = None /\ exs r s' = [] /\ reqs r s' = [] /\
+  (forall v, In v (served_from r s) -> In (Ended (v_k v)) o) /\ served_from r s' = [].
+
+(* what TokenManager.dispatch_error does, as far as the proofs need it *)
+Lemma tm_dispatch_error_spec e r s :
+  let s' := fst (tm_dispatch_error e r s) in let o := snd (tm_dispatch_error e r s) in
+  active_exchanges s' = active_exchanges s /\ backlogs s' = backlogs s /\ forallb neutral o = true /\
+  (forall m b, ~ In (Tx m b) o) /\ (forall m, ~ In (Dropped m) o) /\
+  (forall en, In en (reqs r s) -> In (Fail (q_of en) e) o) /\ reqs r s' = [] /\
+  (forall v, In v (served_from r s) -> In (Ended (v_k v)) o) /\ served_from r s' = [].
+Proof. cbn zeta. destruct (tm_dispatch_error_frame e r s) as (A & B & C). split; [exact A|]. split; [exact B|]. split; [exact C|].
+  unfold tm_dispatch_error. cbn [fst snd]. split; [|split; [|split; [|split; [|split]]]].
+  - intros m b H. apply in_app_or in H. destruct H as [H|H]; apply in_map_iff in H; destruct H as (? & H & _); discriminate.
+  - intros m H. apply in_app_or in H. destruct H as [H|H]; apply in_map_iff in H; destruct H as (? & H & _); discriminate.
+  - intros en Hen. apply in_or_app. left. apply (in_map (fun o => Fail (q_of o) e)). exact Hen.
+  - unfold reqs. cbn [outgoing_requests upd_in upd_out]. apply reqs_after_filter.
+  - intros v Hv. apply in_or_app. right. apply (in_map (fun v => Ended (v_k v))). exact Hv.
+  - unfold served_from. cbn [incoming_requests upd_in upd_out].
+    induction (incoming_requests s) as [|v t IH]; [reflexivity|]. cbn. destruct (v_remote v =? r) eqn:E; cbn; [exact IH|rewrite E; exact IH]. Qed.
+
+Lemma in_dropped_map m q : In m q -> In (Dropped m) (map Dropped q). Proof. apply in_map. Qed.
+Lemma no_tx_dropped m b q : ~ In (Tx m b) (map Dropped q).
+Proof. intros H. apply in_map_iff in H. destruct H as (? & H & _). discriminate. Qed.
 
 Lemma dispatch_error_failed r s q : Inv s -> aget r (backlogs s) = Some q ->
   failed_outcome r q s (fst (dispatch_error r s)) (snd (dispatch_error r s)).
 Proof. intros HI Ha. assert (Hq : Forall (fun m => con_to r m = true) q).
   { destruct (HI r) as (_ & _ & C). unfold backlog_of in C. rewrite Ha in C. exact C. }
-  unfold dispatch_error, tm_dispatch_error. cbn [fst snd backlogs upd_out upd_ex upd_bl active_exchanges]. rewrite Ha.
-  pose proof (neutral_fail_map NetworkError (filter (fun o => remote_of o =? r) (outgoing_requests s))) as Hn.
+  unfold dispatch_error. pose proof (tm_dispatch_error_spec NetworkError r s) as (A & B & Hn & T1 & T2 & T3 & T4 & T5 & T6). cbn zeta in *.
+  destruct (tm_dispatch_error NetworkError r s) as [s1 o1]. cbn [fst snd backlogs upd_ex upd_bl] in *. rewrite B, Ha.
   destruct (neutral_logs r _ Hn) as (N1 & N2 & _).
   unfold failed_outcome. rewrite left_app, subm_app, N1, N2, subm_dropped, left_dropped_same by assumption. cbn [app].
-  split; [reflexivity|]. split; [reflexivity|]. split; [|split; [|split; [|split; [|split]]]].
+  split; [reflexivity|]. split; [reflexivity|]. split; [|split; [|split; [|split; [|split; [|split; [|split]]]]]].
   - intros m Hm. apply in_or_app. right. apply in_map. exact Hm.
-  - intros m b H. apply in_app_or in H. destruct H as [H|H]; apply in_map_iff in H; destruct H as (? & H & _); discriminate.
-  - intros en Hen. exists NetworkError. apply in_or_app. left. apply (in_map (fun o => Fail (q_of o) NetworkError)). exact Hen.
+  - intros m b H. apply in_app_or in H. destruct H as [H|H]; [exact (T1 m b H)|exact (no_tx_dropped m b q H)].
+  - intros en Hen. exists NetworkError. apply in_or_app. left. apply T3. exact Hen.
   - apply aget_adel_same.
-  - unfold exs. cbn [active_exchanges upd_bl upd_ex upd_out]. rewrite filter_drop_remote, Z.eqb_refl. reflexivity.
-  - unfold reqs. cbn [outgoing_requests upd_bl upd_ex upd_out]. apply reqs_after_filter. Qed.
+  - unfold exs. cbn [active_exchanges upd_bl upd_ex]. rewrite filter_drop_remote, Z.eqb_refl. reflexivity.
+  - exact T4.
+  - intros v Hv. apply in_or_app. left. apply T5. exact Hv.
+  - exact T6. Qed.
 
 Lemma fire_giveup_failed s x r q : Inv s -> min_timer (active_exchanges s) = Some x -> m_remote (x_msg x) = r ->
   (x_counter x <? m_maxre (x_msg x)) = false -> aget r (backlogs s) = Some q ->
@@ -196,22 +225,24 @@ Proof. intros HI Hmin Hr Hc Ha. assert (Hq : Forall (fun m => con_to r m = true)
   unfold fire. rewrite Hmin. set (s0 := upd_now s (Z.max (now s) (x_due x))).
   unfold retransmit. rewrite (xget_own s0 x); [|destruct (HI (m_remote (x_msg x))) as (A & _); exact A|exact Hin].
   rewrite Hc, Hr. subst s0. cbn [backlogs upd_ex upd_now]. rewrite Ha.
-  unfold tm_dispatch_error. cbn [fst snd backlogs upd_out upd_ex upd_bl upd_now active_exchanges outgoing_requests].
-  pose proof (neutral_fail_map ConRetransmitsExceeded (filter (fun o => remote_of o =? r) (outgoing_requests s))) as Hn.
+  match goal with |- context [tm_dispatch_error ?e ?rr ?ss] => pose proof (tm_dispatch_error_spec e rr ss) as (A & B & Hn & T1 & T2 & T3 & T4 & T5 & T6);
+    destruct (tm_dispatch_error e rr ss) as [s1 o1] end. cbn zeta in *. cbn [fst snd backlogs active_exchanges upd_ex upd_bl upd_now] in *.
   destruct (neutral_logs r _ Hn) as (N1 & N2 & _).
-  unfold failed_outcome. unfold left, subm. cbn [flat_map left_o subm_o app]. fold (left r) (subm r).
+  unfold failed_outcome. unfold left, subm. cbn [flat_map left_o subm_o app].
   change (flat_map (left_o r)) with (left r). change (flat_map (subm_o r)) with (subm r).
   rewrite left_app, subm_app, N1, N2, subm_dropped, left_dropped_same by assumption. rewrite app_nil_r.
-  split; [reflexivity|]. split; [reflexivity|]. split; [|split; [|split; [|split; [|split]]]].
+  split; [reflexivity|]. split; [reflexivity|]. split; [|split; [|split; [|split; [|split; [|split; [|split]]]]]].
   - intros m Hm. right. apply in_or_app. left. apply in_map. exact Hm.
-  - intros m b [H|H]; [discriminate|]. apply in_app_or in H. destruct H as [H|H]; apply in_map_iff in H; destruct H as (? & H & _); discriminate.
-  - intros en Hen. exists ConRetransmitsExceeded. right. apply in_or_app. right. apply (in_map (fun o => Fail (q_of o) ConRetransmitsExceeded)). exact Hen.
-  - apply aget_adel_same.
-  - unfold exs. cbn [active_exchanges upd_bl upd_ex upd_out]. 
+  - intros m b [H|H]; [discriminate|]. apply in_app_or in H. destruct H as [H|H]; [exact (no_tx_dropped m b q H)|exact (T1 m b H)].
+  - intros en Hen. exists ConRetransmitsExceeded. right. apply in_or_app. right. apply T3. exact Hen.
+  - rewrite B. apply aget_adel_same.
+  - unfold exs. rewrite A.
     destruct (inv_count_aget s r HI) as [[Hc0 _]|(x0 & q0 & Hx & _)].
     { exfalso. pose proof (in_exs r s x Hin Hr) as Hi. rewrite (count0_exs r s Hc0) in Hi. exact Hi. }
     apply (filter_xdel_same r (m_mid (x_msg x)) _ x); [fold (exs r s); rewrite Hx; cbn; lia|exact Hin|unfold key_eqb; lia].
-  - unfold reqs. cbn [outgoing_requests upd_bl upd_ex upd_out]. apply reqs_after_filter. Qed.
+  - exact T4.
+  - intros v Hv. right. apply in_or_app. right. apply T5. exact Hv.
+  - exact T6. Qed.
 
 Theorem dropped_when_failed s e r q : Inv s -> fails s e r = true -> aget r (backlogs s) = Some q ->
   failed_outcome r q s (fst (step s e)) (snd (step s e)).
@@ -289,7 +320,7 @@ Proof. intros Hne Hq. unfold release. destruct (backlog_of r0 s) as [|m q]; cbn 
 Lemma neutral_silent_fail e l r : silent r (map (fun o : Z * Z * Z => Fail (q_of o) e) l) = true.
 Proof. induction l; [reflexivity|assumption]. Qed.
 Lemma call_monitor_silent m s r : silent r (snd (call_monitor m s)) = true.
-Proof. unfold call_monitor. destruct (m_sub m); [destruct (existsb _ _)|]; reflexivity. Qed.
+Proof. unfold call_monitor, stop_responder. destruct (m_sub m); [destruct (existsb _ _)| |destruct (alive _ _)]; reflexivity. Qed.
 
 Lemma remove_exchange_untouched r0 mid mt s r : Inv s -> r <> r0 ->
   Untouched r s (fst (remove_exchange r0 mid mt s)) (snd (remove_exchange r0 mid mt s)).
@@ -317,7 +348,7 @@ Lemma send_message_untouched who r0 mt code tok maxre s r : r <> r0 ->
   Untouched r s (fst (send_message who r0 mt code tok maxre s)) (snd (send_message who r0 mt code tok maxre s)).
 Proof. intros Hne. unfold send_message, next_message_id. cbn [m_mtype].
   set (s0 := {| now := now s; seq := seq s; message_id := Z.land 65535 (1 + message_id s); token := token s; rand := rand s;
-                active_exchanges := active_exchanges s; backlogs := backlogs s; outgoing_requests := outgoing_requests s |}).
+                active_exchanges := active_exchanges s; backlogs := backlogs s; outgoing_requests := outgoing_requests s; incoming_requests := incoming_requests s |}).
   set (m := {| m_sub := who; m_remote := r0; m_mtype := resolve_mtype mt; m_code := code; m_mid := message_id s; m_tok := tok; m_maxre := maxre |}).
   assert (Hsm : forall b, silent r [Submitted m; Tx m b] = true) by (intros; unfold silent; cbn; replace (r0 =? r) with false by lia; reflexivity).
   destruct ((resolve_mtype mt =? 0) && in_backlogs r0 s0).
@@ -333,11 +364,15 @@ Lemma silent_dropped r0 r q : Forall (fun m => con_to r0 m = true) q -> r <> r0 
 Proof. intros H Hne. induction H as [|m q H _ IH]; [reflexivity|]. unfold silent in *. cbn. rewrite IH.
   unfold con_to in H. replace (m_remote m =? r) with false by lia. reflexivity. Qed.
 
+Lemma silent_tm e r0 s r : silent r (snd (tm_dispatch_error e r0 s)) = true.
+Proof. unfold tm_dispatch_error. cbn [snd]. rewrite silent_app, neutral_silent_fail. cbn [andb].
+  induction (filter _ (incoming_requests s)); [reflexivity|assumption]. Qed.
+
 Lemma dispatch_error_untouched r0 s r : Inv s -> r <> r0 -> Untouched r s (fst (dispatch_error r0 s)) (snd (dispatch_error r0 s)).
 Proof. intros HI Hne. unfold dispatch_error, tm_dispatch_error. cbn [fst snd backlogs upd_out upd_ex upd_bl active_exchanges]. split; [|split].
   - unfold exs. cbn [active_exchanges upd_bl upd_ex upd_out]. rewrite filter_drop_remote. replace (r =? r0) with false by lia. reflexivity.
   - cbn. apply aget_adel_other; assumption.
-  - rewrite silent_app, neutral_silent_fail. cbn [andb]. apply (silent_dropped r0); [|assumption].
+  - rewrite silent_app. apply andb_true_intro. split; [exact (silent_tm NetworkError r0 s r)|]. apply (silent_dropped r0); [|assumption].
     destruct (HI r0) as (_ & _ & C). exact C. Qed.
 
 Lemma retransmit_untouched x s r : Inv s -> In x (active_exchanges s) -> r <> m_remote (x_msg x) ->
@@ -355,9 +390,23 @@ Proof. intros HI Hin Hne. unfold retransmit.
     + unfold tm_dispatch_error. cbn [fst snd backlogs upd_out upd_ex upd_bl active_exchanges]. split; [|split].
       * unfold exs. cbn [active_exchanges upd_bl upd_ex upd_out]. apply filter_xdel_other; assumption.
       * cbn. apply aget_adel_other; assumption.
-      * rewrite silent_app, neutral_silent_fail, andb_true_r. apply (silent_dropped r0); [|assumption].
-        destruct (HI r0) as (_ & _ & C). unfold backlog_of in C. rewrite Ea in C. exact C.
+      * rewrite silent_app. apply andb_true_intro. split; [apply (silent_dropped r0); [|assumption];
+          destruct (HI r0) as (_ & _ & C); unfold backlog_of in C; rewrite Ea in C; exact C|].
+        match goal with |- silent r ?o = true => change o with (snd (tm_dispatch_error ConRetransmitsExceeded r0 (upd_bl (upd_ex s (xdel r0 (m_mid m) (active_exchanges s))) (adel r0 (backlogs s))))) end.
+        apply silent_tm.
     + cbn [fst snd]. split; [unfold exs; cbn [active_exchanges upd_ex]; apply filter_xdel_other; assumption|]. split; reflexivity. Qed.
+
+Lemma respond_untouched send r :
+  (forall who r0 mt code tok maxre s, r <> r0 -> Untouched r s (fst (send who r0 mt code tok maxre s)) (snd (send who r0 mt code tok maxre s))) ->
+  forall j k last maxre s,
+  match find (fun v => v_k v =? k) (incoming_requests s) with Some v => v_remote v =? r | None => false end = false ->
+  Untouched r s (fst (respond send j k last maxre s)) (snd (respond send j k last maxre s)).
+Proof. intros Hs j k last maxre s Ht. unfold respond. destruct (find _ (incoming_requests s)) as [v|]; [|apply untouched_refl].
+  pose proof (Hs (Resp j k) (v_remote v) (if v_mtype v =? 1 then 7 else 8) 69 (v_tok v) maxre s ltac:(lia)) as U.
+  destruct (send _ _ _ _ _ _ s) as [s1 o1]. cbn [fst snd] in U.
+  destruct last; destruct (alive k s1) eqn:Ea; cbn [fst snd]; try exact U.
+  - unfold stop_responder. rewrite Ea. cbn [fst snd]. apply (untouched_trans r s s1); [exact U|]. repeat split.
+  - apply (untouched_trans r s s1); [exact U|]. repeat split. Qed.
 
 Theorem step_frame s e r : Inv s -> touches s e r = false -> Untouched r s (fst (step s e)) (snd (step s e)).
 Proof. intros HI Ht. destruct e; cbn in Ht; cbn [step].
@@ -377,7 +426,10 @@ Proof. intros HI Ht. destruct e; cbn in Ht; cbn [step].
     split; [rewrite A; reflexivity|]. split; [rewrite B; reflexivity|]. unfold silent in *. cbn. rewrite Ht. exact C.
   - cbn [fst snd]. split; [|split; [|reflexivity]]; unfold advance; destruct (d <? 0); try reflexivity;
       destruct (min_timer (active_exchanges s)) as [x|]; try reflexivity; destruct (x_due x <=? now s + d); reflexivity.
-  - destruct (outstanding q s); cbn [fst snd]; [|apply untouched_refl]. repeat split. Qed.
+  - destruct (outstanding q s); cbn [fst snd]; [|apply untouched_refl]. repeat split.
+  - unfold tm_process_request. cbn [fst snd]. split; [reflexivity|]. split; [reflexivity|].
+    induction (filter _ (incoming_requests s)); [reflexivity|assumption].
+  - apply respond_untouched; [intros; apply send_message_untouched; assumption|exact Ht]. Qed.
 
 Lemma send_message_non who r mt code tok maxre s : (resolve_mtype mt =? 0) = false ->
   active_exchanges (fst (send_message who r mt code tok maxre s)) = active_exchanges s /\
@@ -387,6 +439,16 @@ Proof. intros Ec. unfold send_message, next_message_id, send_initially. cbn [m_m
   split; [reflexivity|]. split; [reflexivity|]. intros r'. unfold subm, left. cbn [flat_map subm_o left_o]. unfold con_to. cbn [m_mtype]. rewrite Ec. cbn. auto. Qed.
 
 (* ---------------------------------------------------------------- (C) otherwise the queue only grows and the same message stays outstanding *)
+(* a submission to a remote that has an exchange open: queued behind it (CON) or sent past it (NON) *)
+Lemma send_message_busy who r mt code tok maxre s q x : Inv s -> aget r (backlogs s) = Some q -> exs r s = [x] ->
+  aget r (backlogs (fst (send_message who r mt code tok maxre s))) = Some (q ++ subm r (snd (send_message who r mt code tok maxre s))) /\
+  left r (snd (send_message who r mt code tok maxre s)) = [] /\ exs r (fst (send_message who r mt code tok maxre s)) = [x].
+Proof. intros HI Ha Hx. destruct (resolve_mtype mt =? 0) eqn:Ec.
+  - destruct (send_message_held who r mt code tok maxre s q HI ltac:(lia) Ha) as (m & -> & _ & Hr & Hc & _). cbn [fst snd backlogs upd_bl].
+    rewrite aget_aset_same. unfold subm, left. cbn. unfold con_to. rewrite Hr, Hc, !Z.eqb_refl. cbn. split; [reflexivity|]. split; [reflexivity|exact Hx].
+  - destruct (send_message_non who r mt code tok maxre s Ec) as (A & B & C). destruct (C r) as (C1 & C2).
+    unfold exs. rewrite A, B, C1, C2, app_nil_r. auto. Qed.
+
 (* the timer of the exchange with r fires (and, given [fails s e r = false], retransmits) *)
 Definition fires_on (s : st) (e : event) (r : Z) : bool :=
   match e with
@@ -450,7 +512,24 @@ Proof. intros HI Ha Hack Hf. cbn zeta.
     { apply (filter_xdel_same r _ _ x); [fold (exs r s); rewrite Hx; cbn; lia|exact Hin|unfold key_eqb; lia]. }
     pose proof (filter_xdel_incl r r (m_mid (x_msg x)) (xdel r (m_mid (x_msg x)) (active_exchanges s))) as Hle. rewrite Hz in Hle.
     destruct (filter (to_remote r) (xdel r (m_mid (x_msg x)) (xdel r (m_mid (x_msg x)) (active_exchanges s)))); [reflexivity|cbn in Hle; lia]. }
-    cbn [x_msg x_counter]. split; [reflexivity|]. split; [reflexivity|lia]. Qed.
+    cbn [x_msg x_counter]. split; [reflexivity|]. split; [reflexivity|lia].
+  - (* a new request from r is served *) cbn [step fires_on]. unfold tm_process_request. cbn [fst snd].
+    assert (Hn : forallb neutral (map (fun v => Ended (v_k v)) (filter (fun v => (v_tok v =? tok) && (v_remote v =? r0)) (incoming_requests s))) = true)
+      by (induction (filter _ (incoming_requests s)); [reflexivity|assumption]).
+    destruct (neutral_logs r _ Hn) as (N1 & N2 & _). rewrite N1, N2, app_nil_r.
+    split; [exact Ha|]. split; [reflexivity|]. exists x, x. auto.
+  - (* a responder serving r produces a response *) cbn [step fires_on]. unfold respond.
+    destruct (find (fun v => v_k v =? k) (incoming_requests s)) as [v|]; [|discriminate Ht].
+    assert (Hv : v_remote v = r) by lia. rewrite Hv.
+    destruct (send_message_busy (Resp j k) r (if v_mtype v =? 1 then 7 else 8) 69 (v_tok v) maxre s q' x HI Ha Hx) as (A & B & C).
+    destruct (send_message _ _ _ _ _ _ s) as [s1 o1]. cbn [fst snd] in *.
+    destruct last; destruct (alive k s1) eqn:Eal; cbn [fst snd].
+    + unfold stop_responder. rewrite Eal. cbn [fst snd]. rewrite subm_app, left_app, B. unfold subm, left. cbn. rewrite app_nil_r.
+      split; [exact A|]. split; [reflexivity|]. exists x, x. auto.
+    + split; [exact A|]. split; [exact B|]. exists x, x. auto.
+    + split; [exact A|]. split; [exact B|]. exists x, x. auto.
+    + rewrite subm_app, left_app, B. unfold subm, left. cbn. rewrite app_nil_r.
+      split; [exact A|]. split; [reflexivity|]. exists x, x. auto. Qed.
 
 Theorem held_otherwise s e r q : Inv s -> aget r (backlogs s) = Some q -> acks s e r = false -> fails s e r = false ->
   let s' := fst (step s e) in let o := snd (step s e) in
@@ -507,7 +586,7 @@ Proof. intros HI Hne. unfold fire. destruct (min_timer (active_exchanges s)) as 
     change (list_sum (?a :: ?l)) with (a + list_sum l)%nat.
     unfold weight at 1. cbn [x_msg x_counter]. unfold weight in Hm at 2. lia.
   - cbn [backlogs upd_ex upd_now s0]. destruct (aget (m_remote (x_msg x)) (backlogs s)) as [q|] eqn:Ea.
-    + unfold measure in *. unfold tm_dispatch_error. cbn [fst snd upd_out upd_bl upd_ex active_exchanges upd_now s0].
+    + unfold measure in *. unfold tm_dispatch_error. cbn [fst snd upd_in upd_out upd_bl upd_ex active_exchanges upd_now s0].
       unfold weight in Hm at 2. lia.
     + exfalso. destruct (inv_count_aget s (m_remote (x_msg x)) HI) as [[Hc _]|(x0 & q & _ & Ha & _)]; [|congruence].
       pose proof (in_exs _ s x Hin eq_refl) as Hi. rewrite (count0_exs _ s Hc) in Hi. exact Hi. Qed.
@@ -533,9 +612,9 @@ Proof. induction n as [|n IH]; intros s HI Hm.
 Lemma retransmit_no_subm x s r : subm r (snd (retransmit x s)) = [].
 Proof. unfold retransmit. destruct (xget _ _ _); [|reflexivity].
   destruct (x_counter x <? m_maxre (x_msg x)); [reflexivity|].
-  destruct (aget _ _) as [q|]; [|reflexivity]. unfold tm_dispatch_error. cbn [fst snd].
-  rewrite subm_app, subm_dropped. cbn [app].
-  match goal with |- subm r (map _ ?l) = [] => destruct (neutral_logs r _ (neutral_fail_map ConRetransmitsExceeded l)) as (N1 & _); exact N1 end. Qed.
+  destruct (aget _ _) as [q|]; [|reflexivity].
+  match goal with |- context [tm_dispatch_error ?e ?rr ?ss] => destruct (tm_dispatch_error_frame e rr ss) as (_ & _ & Hn); destruct (tm_dispatch_error e rr ss) as [s1 o1] end.
+  cbn [fst snd] in *. rewrite subm_app, subm_dropped. cbn [app]. destruct (neutral_logs r _ Hn) as (N1 & _). exact N1. Qed.
 
 Lemma fire_no_subm s r : subm r (snd (fire s)) = [].
 Proof. unfold fire. destruct (min_timer (active_exchanges s)) as [x|]; [|reflexivity].
@@ -555,3 +634,9 @@ Proof. intros HI. cbn zeta. pose proof (run_trans (repeat Fire (measure s)) s HI
   pose proof (no_exchange_no_backlog _ HI' He) as Hb.
   split; [exact He|]. split; [exact Hb|]. intros r. specialize (B r). rewrite fires_no_subm, app_nil_r in B.
   unfold backlog_of at 2 in B. rewrite Hb in B. cbn in B. rewrite app_nil_r in B. symmetry. exact B. Qed.
+
+Theorem dropped_response_stopped s e r q : Inv s -> fails s e r = true -> aget r (backlogs s) = Some q ->
+  (forall v, In v (incoming_requests s) -> v_remote v = r -> In (Ended (v_k v)) (snd (step s e))) /\
+  served_from r (fst (step s e)) = [].
+Proof. intros HI Hf Ha. destruct (dropped_when_failed s e r q HI Hf Ha) as (_ & _ & _ & _ & _ & _ & _ & _ & A & B).
+  split; [|exact B]. intros v Hv Hr. apply A. unfold served_from. apply filter_In. split; [exact Hv|lia]. Qed.
